@@ -6,6 +6,7 @@ package main
 
 import (
 	"fmt"
+	frugal "github.com/Workiva/frugal/lib/go"
 	"os"
 	"sort"
 	"strings"
@@ -260,6 +261,62 @@ func main() {
 		}
 	}
 	run.Set("early_response_trials_(delivery_completed_before_the_caller_waited)", early)
+	// (e) contexts of every kind carry pairwise different op ids (two requests
+	// sharing one cannot both get their own response), responses that arrive the
+	// instant the request is written, and a refused duplicate call
+	{
+		type wrapped struct{ frugal.FContext }
+		base := frugal.NewFContext("")
+		ids := map[string]string{}
+		add := func(how string, c frugal.FContext) {
+			op, _ := c.RequestHeader("_opid")
+			if prev, dup := ids[op]; dup {
+				run.Violation("C01:contexts-share-op-id:"+how, fmt.Sprintf("the context obtained by %s carries op id %s, which the context obtained by %s already carries: two requests in flight with these contexts cannot both receive their own response", how, op, prev), map[string]interface{}{"op_id": op, "first": prev, "second": how})
+				return
+			}
+			ids[op] = how
+		}
+		add("NewFContext", base)
+		add("frugal.Clone(FContextImpl)", frugal.Clone(base))
+		add("frugal.Clone(user-defined FContext)", frugal.Clone(wrapped{base}))
+		add("frugal.Clone(clone of a user-defined FContext)", frugal.Clone(wrapped{frugal.Clone(wrapped{base})}))
+		add("NewFContext (second)", frugal.NewFContext(""))
+		run.Eval(len(ids))
+		g, per := 16, 4000
+		if run.Thorough() {
+			g, per = 64, 8000
+		}
+		pr := rig.PromptReplyTrial(g, per)
+		run.Eval(int(pr.Requests))
+		run.Set("prompt_reply_requests_(answered_from_inside_the_transport_Flush)", pr.Requests)
+		switch {
+		case pr.Bad != "":
+			cls := "wrong-completion"
+			if strings.Contains(pr.Bad, "were lost") {
+				cls = "response-lost"
+			}
+			run.Violation("C01:prompt-reply:adapter:"+cls, pr.Bad, pr.Witness)
+		case pr.Inconclusive != "":
+			run.Inconclusive("prompt-reply trial: " + pr.Inconclusive)
+		default:
+			run.Distinct("prompt-reply adapter")
+		}
+		for k := 0; k < 3; k++ {
+			dr := rig.DuplicateContextTrial(nats)
+			run.Eval(1)
+			switch {
+			case dr.Bad != "":
+				run.Violation("C01:duplicate-context-refused:nats:in-flight-request-lost", dr.Bad, map[string]interface{}{"second_call_error": dr.SecondErr})
+			case dr.Inconclusive != "":
+				run.Inconclusive("duplicate-context trial: " + dr.Inconclusive)
+			default:
+				run.Distinct("duplicate-context nats")
+			}
+			if dr.Bad != "" {
+				break
+			}
+		}
+	}
 	registryBurst(run)
 	stress(run, nats)
 	registryHistories(run)
